@@ -63,8 +63,11 @@ PROPERTIES["C05"] = {
                  ["VerifC05Rename", "VerifC05Prefix", "VerifC05Duplicate", "VerifC05Unspec", "VerifC05ReplaceReference", "VerifC05AllowedObjects", "VerifC05Sequence"],
                  "internal/ast/compiler", needs_leaf=True)]
              + [Run("chains", ["./internal/zzverif/hchains"], CHAINS_HARNESS,
-                    ["VerifC05ChainGo", "VerifC05ChainJava", "VerifC05ChainPHP", "VerifC05ChainPython", "VerifC05ChainTypeScript"],
-                    "internal/zzverif/hchains", test_pkg_name="hchains", needs_leaf=True)],
+                    ["VerifC05ChainGo", "VerifC05ChainJava", "VerifC05ChainPHP", "VerifC05ChainPython", "VerifC05ChainTypeScript",
+                     "VerifC05ChainGoStructUnion", "VerifC05ChainJavaStructUnion", "VerifC05ChainPHPStructUnion", "VerifC05ChainPythonStructUnion", "VerifC05ChainTypeScriptStructUnion"],
+                    "internal/zzverif/hchains", test_pkg_name="hchains", needs_leaf=True,
+                    quick_entries=["VerifC05ChainGo", "VerifC05ChainJava", "VerifC05ChainPHP", "VerifC05ChainPython", "VerifC05ChainTypeScript",
+                                   "VerifC05ChainJavaStructUnion", "VerifC05ChainPHPStructUnion"])],
 }
 
 
@@ -116,8 +119,14 @@ PROPERTIES["C06"] = {
                  ["VerifC06Go", "VerifC06Java", "VerifC06PHP", "VerifC06Python", "VerifC06TypeScript",
                   "VerifC06GoSpine", "VerifC06JavaSpine", "VerifC06PHPSpine", "VerifC06PythonSpine",
                   "VerifC06GoIntersection", "VerifC06JavaIntersection", "VerifC06PHPIntersection", "VerifC06PythonIntersection",
-                  "VerifC06GoConstants", "VerifC06JavaConstants", "VerifC06PHPConstants", "VerifC06PythonConstants", "VerifC06TypeScriptConstants"],
-                 "internal/zzverif/hchains", test_pkg_name="hchains", needs_leaf=True)],
+                  "VerifC06GoConstants", "VerifC06JavaConstants", "VerifC06PHPConstants", "VerifC06PythonConstants", "VerifC06TypeScriptConstants",
+                  "VerifC06GoStructUnion", "VerifC06JavaStructUnion", "VerifC06PHPStructUnion", "VerifC06PythonStructUnion"],
+                 "internal/zzverif/hchains", test_pkg_name="hchains", needs_leaf=True,
+                 quick_entries=["VerifC06Go", "VerifC06Java", "VerifC06PHP", "VerifC06Python", "VerifC06TypeScript",
+                  "VerifC06GoSpine", "VerifC06JavaSpine", "VerifC06PHPSpine", "VerifC06PythonSpine",
+                  "VerifC06GoIntersection", "VerifC06JavaIntersection", "VerifC06PHPIntersection", "VerifC06PythonIntersection",
+                  "VerifC06GoConstants", "VerifC06JavaConstants", "VerifC06PHPConstants", "VerifC06PythonConstants", "VerifC06TypeScriptConstants",
+                  "VerifC06GoStructUnion", "VerifC06PythonStructUnion"])],
 }
 
 
